@@ -27,8 +27,16 @@ theorem C07_pds_terminates (k : Py.IntClasses) (t : Text) : pdsToDict k t ≠ .d
 theorem C07_icc_terminates (b : Bytes) : iccToDict b ≠ .diverge :=
   iccToDict_terminates b
 
+/-- C07(d): the typed conversion of an element — string, int / long, decimal or datetime — gives a
+    value or the library error for EVERY text: `decimal.InvalidOperation` (which is not a ValueError)
+    is caught like the ValueError of `int()` / `strptime` -/
+theorem C07_typed_conversion (env : Env) (f : FieldCfg) (t : Text) :
+    (∃ v, (stringToPyType env f t).catchAs isConvError = .ok v) ∨
+      (stringToPyType env f t).catchAs isConvError = .dataError :=
+  safe_cases (stringToPyType_safe env f t)
+
 /-- the packaged configuration is acceptable (re-checked against /repo's config on every run):
-    no decimal field; PDS / ICC / DE43 processors sit on string-typed elements -/
+    PDS / ICC / DE43 processors sit on string-typed elements -/
 theorem packaged_config_ok : ConfigOK Gen.bitConfig :=
   configOK_of_all (by decide)
 
